@@ -522,6 +522,15 @@ def r58(ctx: Ctx) -> RuleReport:
     v = single_def(ctx, fi, call.args[1])
     src = norm(v)
     key = 'penman.layout:interpret: the variable set is {variable of every node in t.nodes()}'
+    inner0 = ctx.repo.func('penman.layout', '_interpret_node')
+    vp0 = inner0.positional[1]
+    grows = [n for n in walk_local(inner0.node) if isinstance(n, ast.Call) and isinstance(n.func, ast.Attribute) and n.func.attr in ('add', 'update')
+             and norm(n.func.value) == vp0]
+    if grows:
+        rep.violation(key, inner0.loc(grows[0]), f'`{norm(grows[0])}`: the variable set is filled while the tree is being interpreted (it starts as `{src[:40]}`), so a '
+                      f'reference to a variable whose node is written later in the text is taken for a constant: its inverted role is not deinverted and '
+                      f'the triple is classified as an attribute')
+        return rep
     good = False
     if isinstance(v, (ast.SetComp, ast.GeneratorExp, ast.ListComp)) or (isinstance(v, ast.Call) and norm(v.func) == 'set' and v.args):
         comp = v if not isinstance(v, ast.Call) else v.args[0]
@@ -799,7 +808,11 @@ def r65(ctx: Ctx) -> RuleReport:
     want = bn.mk_not(('atom', 'isinstance(t, RoleAlignment)'))
     key = f'{fi.fq}: markers of the second triple are copied unless they are role alignments'
     found = False
-    for n in walk_local(fi.node):
+    from ..resolve import local_callees
+    sites = [(f, n) for f in local_callees(ctx, fi, depth=1) if f.module.name == fi.module.name and (f.fq == fi.fq or f.qualname.startswith('_dereif'))
+             for n in walk_local(f.node)]
+    root_fi = fi
+    for fi, n in sites:
         pred = None
         if isinstance(n, (ast.GeneratorExp, ast.ListComp)) and len(n.generators) == 1 and '.epidata.get(' in norm(n.generators[0].iter) \
                 and norm(n.elt) == norm(n.generators[0].target):
@@ -828,7 +841,7 @@ def r65(ctx: Ctx) -> RuleReport:
                     f'a marker is copied only when {bn.show(pred)}: with {dropped} a marker that is not a role alignment is dropped, so layout '
                     f'markers or alignments of the replaced triple are lost' if dropped is not None else bn.show(pred))
     if not found:
-        rep.undecided(key, fi.loc(), 'no copy of g.epidata.get(<second triple>, []) found')
+        rep.undecided(key, root_fi.loc(), 'no copy of g.epidata.get(<second triple>, []) found')
     return rep
 
 
@@ -974,4 +987,52 @@ def r32(ctx: Ctx) -> RuleReport:
                                       f'points to a constant the result is a triple whose source is not a node')
                         continue
             rep.add(key, fi.loc(c), 'ok' if proven else 'undecided', proven or 'neither the argument nor the result is shown to have a variable in source position')
+    return rep
+
+
+@rule('R70', 'a tree atom (None when a target or concept is missing) is only dereferenced where it is known to be a string')
+def r70(ctx: Ctx) -> RuleReport:
+    from ..resolve import facts_ex
+    rep = RuleReport('R70', r70.title, floor=3)
+    STR_METHODS = {'partition', 'rpartition', 'split', 'rsplit', 'startswith', 'endswith', 'strip', 'lstrip', 'rstrip', 'replace', 'find',
+                   'index', 'rindex', 'rfind', 'lower', 'upper', 'isalpha', 'encode', 'format', 'join', 'count'}
+    for fi in ctx.repo.all_functions():
+        if fi.module.name not in ('penman._format', 'penman.tree', 'penman.layout', 'penman.transform'):
+            continue
+        for n in walk_local(fi.node):
+            if not (isinstance(n, ast.Call) and isinstance(n.func, ast.Attribute) and n.func.attr in STR_METHODS and isinstance(n.func.value, ast.Name)):
+                continue
+            x = n.func.value
+            t = ctx.types.type_of(fi, x)
+            if not has(t, 'Atom'):
+                continue
+            fx = facts_ex(ctx, fi, n)
+            nm = x.id
+            def proves(f, pol, name):
+                if pol and (f in (f'{name} is not None', f'isinstance({name}, str)', name) or (f.endswith(f' in {name}') and f[:1] in '\'"')):
+                    return True
+                return (not pol) and f in (f'{name} is None', f'not {name}')
+            guarded = any(proves(f, pol, nm) for f, pol in fx)
+            # a caller-side guarantee: the parameter is only ever passed values already tested there
+            key = f'{fi.module.name}:{fi.qualname}: {norm(n)[:50]}'
+            if guarded:
+                rep.ok(key, fi.loc(n), 'the atom is known to be a string here')
+                continue
+            if nm in fi.params:
+                callers = ctx.cg.callers.get(fi.fq, [])
+                idx = fi.positional.index(nm) if nm in fi.positional else None
+                ok_all = bool(callers) and idx is not None
+                for cfi, call in callers:
+                    a = call.args[idx] if idx is not None and idx < len(call.args) else None
+                    if not isinstance(a, ast.Name):
+                        ok_all = False
+                        break
+                    cf = facts_ex(ctx, cfi, call)
+                    if not any(proves(f, pol, a.id) for f, pol in cf):
+                        ok_all = False
+                if ok_all:
+                    rep.ok(key, fi.loc(n), 'every caller passes an atom it has tested')
+                    continue
+            rep.violation(key, fi.loc(n), f'`{nm}` may be None (a branch without a target, "(a :ARG0 )", or a node without a concept, "(a / )", parses to None): '
+                          f'.{n.func.attr}() then raises AttributeError instead of the text being written')
     return rep
